@@ -2,7 +2,7 @@
 
 import numpy as np
 
-OCC_CLASSES = ["closed", "rohf", "nearint", "fractional", "natural_negative", "aminusb", "aminusb_neg", "aminusb_zero", "none", "empty"]
+OCC_CLASSES = ["closed", "rohf", "nearint", "fractional", "natural_negative", "aminusb", "aminusb_neg", "aminusb_zero", "aminusb_cancel", "none", "empty"]
 
 
 def documented_spin_occupations(occs, occs_aminusb):
@@ -73,6 +73,23 @@ def restricted_occupations(rng, norb, occ_class):
         # explicit, exactly zero alpha-minus-beta occupation on integer (open-shell) or fractional occupations
         occs, _ = restricted_occupations(rng, norb, str(rng.choice(["rohf", "closed", "fractional"])))
         return occs, np.zeros(norb)
+    if occ_class == "aminusb_cancel":
+        # overall singlet with spin-polarised orbitals: non-zero alpha-minus-beta occupations that add up to exactly zero
+        # (open-shell singlet / antiferromagnetically coupled natural orbitals); dyadic values, so every sum is exact
+        if norb < 2:
+            return restricted_occupations(rng, norb, "aminusb_zero")
+        nd = int(rng.integers(0, norb - 1))
+        npair = int(rng.integers(1, (norb - nd) // 2 + 1))
+        occs = np.zeros(norb)
+        occs[:nd] = 2.0
+        d = np.zeros(norb)
+        for j in range(npair):
+            x = 1.0 if rng.random() < 0.5 else float(rng.integers(1, 8)) / 8
+            occs[nd + 2 * j: nd + 2 * j + 2] = 1.0 if x == 1.0 else float(rng.integers(8, 13)) / 8
+            lim = min(occs[nd + 2 * j], 2 - occs[nd + 2 * j])
+            d[nd + 2 * j] = min(x, lim)
+            d[nd + 2 * j + 1] = -min(x, lim)
+        return occs, d
     if occ_class in ("aminusb", "aminusb_neg"):
         occs = np.sort(rng.uniform(0.0, 2.0, size=norb))[::-1].copy()
         lim = np.minimum(occs, 2 - occs)
